@@ -96,6 +96,17 @@ def run(shard, rec):
                     elif err is None:
                         if got.v != exp:
                             rec.violation(f'reduce n={n} init={init_kind}: result differs from functools.reduce', {'fn': 'reduce', 'mechanism': 'wrong-result'}, {'case': case}, case=case)
+                        # the items may be temporaries that only the iterable holds (generator, map, iterator over a list nobody else keeps), as for functools.reduce
+                        for hold in ('generator', 'map', 'iter-of-dropped-list', 'tuple'):
+                            src = {'generator': lambda: (V(x) for x in xs), 'map': lambda: map(V, xs), 'iter-of-dropped-list': lambda: iter([V(x) for x in xs]), 'tuple': lambda: tuple(V(x) for x in xs)}[hold]
+                            try:
+                                got_h = mpctools.reduce(f, src()) if init_kind == 'none' else mpctools.reduce(f, src(), V(item(999)))
+                            except Exception as e:
+                                rec.violation(f'reduce n={n} init={init_kind} over a {hold}: raised {type(e).__name__}: {e}', {'fn': 'reduce', 'mechanism': 'exception'}, {'case': case}, case=case)
+                                continue
+                            rec.count('reduce_over_temporaries')
+                            if got_h.v != exp:
+                                rec.violation(f'reduce n={n} init={init_kind} over a {hold}: result differs from functools.reduce', {'fn': 'reduce', 'mechanism': 'wrong-result', 'holding': hold}, {'case': case}, case=case)
                         nn = n + (init_kind != 'none')
                         bound = math.ceil(math.log2(nn)) if nn > 1 else 0
                         rec.count('depth_checked')
@@ -135,6 +146,13 @@ def run(shard, rec):
                     finally:
                         mpc.options.no_prss = old
                     rec.count('accumulate_checked')
+                    try:
+                        got_g = list(mpctools.accumulate((V(x) for x in xs), f, method=method, **({} if init_kind == 'none' else {'initial': V(item(999))})))
+                        rec.count('accumulate_over_temporaries')
+                        if [g_.v for g_ in got_g] != exp:
+                            rec.violation(f'accumulate n={n} init={init_kind} method={method} over a generator: differs from itertools.accumulate', {'fn': 'accumulate', 'mechanism': 'wrong-result', 'holding': 'generator'}, {'case': case}, case=case)
+                    except Exception as e:
+                        rec.violation(f'accumulate n={n} init={init_kind} method={method} over a generator: raised {type(e).__name__}: {e}', {'fn': 'accumulate', 'mechanism': 'exception'}, {'case': case}, case=case)
                     if [g_.v for g_ in got] != exp:
                         rec.violation(f'accumulate n={n} init={init_kind} method={method}: differs from itertools.accumulate', {'fn': 'accumulate', 'mechanism': 'wrong-result'}, {'case': case}, case=case)
                     nn = len(exp)
